@@ -236,6 +236,8 @@ def run(ctx):
     ex = [n for n in cc.nodes if n.kind == "except" and "ConsumerFetchSizeTooSmall" in norm(n.stmt.type)]
     need(ex, "too-small handler missing in the consumer")
     arm = [cc.nodes[i] for i in cc.reach([ex[0].id])]
+    from .c14 import buffer_kernel
+    buffer_kernel(ctx, r)
     r.check(not any(n.stmt is not None and node_writes_attr(n, "_fetch_offset") for n in arm) and any(
         n.stmt is not None and node_writes_attr(n, "buffer_size") for n in arm), "%s#grow-not-skip" % hfr.qname,
         "too-small arm moves the fetch position or does not grow the buffer", where(hfr, ex[0].stmt), "the large message is skipped")
